@@ -34,6 +34,7 @@ method that calls it) out of the generated file, so that `Lemmas/GenEqPosPQ.lean
 every generated method equal to the hand-written model — no longer builds: a broken obligation.
 """
 import ast
+import copy
 import sys
 from fractions import Fraction
 from pathlib import Path
@@ -131,6 +132,88 @@ class K:
         for a, b in kw.items():
             setattr(k, a, b)
         return k
+
+
+def _stores(fn, name):
+    n = 0
+    for x in ast.walk(fn):
+        if isinstance(x, ast.Name) and x.id == name and isinstance(x.ctx, (ast.Store, ast.Del)):
+            n += 1
+        if isinstance(x, ast.arg) and x.arg == name:
+            n += 1
+    return n
+
+
+def expand_aliases(fn):
+    """`f = xs.append` / `pop = self._pq.pop` / `upd = self.update_counters` … `f(v)`:
+    a local name bound once to a bound method of a local container, of `self._pq` or of `self`, and only ever
+    called, is replaced by the attribute it stands for (the container itself must not be re-bound: a bound
+    method keeps the object, a re-bound name would not)."""
+    cands = {}
+    for st in ast.walk(fn):
+        if isinstance(st, ast.Assign) and len(st.targets) == 1 and isinstance(st.targets[0], ast.Name) \
+                and isinstance(st.value, ast.Attribute):
+            v = st.value
+            base = v.value
+            ok = (isinstance(base, ast.Name)
+                  or (isinstance(base, ast.Attribute) and isinstance(base.value, ast.Name) and base.value.id == "self"
+                      and base.attr == "_pq"))
+            if ok:
+                cands[st.targets[0].id] = st
+    if not cands:
+        return fn
+    calls = {id(c.func) for c in ast.walk(fn) if isinstance(c, ast.Call)}
+    for name, st in list(cands.items()):
+        loads = [x for x in ast.walk(fn) if isinstance(x, ast.Name) and x.id == name and isinstance(x.ctx, ast.Load)]
+        base = st.value.value
+        if not loads or any(id(x) not in calls for x in loads):
+            del cands[name]          # not (only) called: an ordinary attribute read, handled or refused later
+            continue
+        if _stores(fn, name) != 1:
+            raise Unsupported(f"`{name}` is bound to a method and re-assigned")
+        if isinstance(base, ast.Name) and base.id != "self" and _stores(fn, base.id) != 1:
+            raise Unsupported(f"`{name} = {base.id}.{st.value.attr}` while `{base.id}` is re-bound")
+        if isinstance(base, ast.Name) and base.id == "self" and st.value.attr in SELF_FIELDS:
+            del cands[name]
+
+    class Tr(ast.NodeTransformer):
+        def visit_Assign(self, node):
+            if any(node is st for st in cands.values()):
+                return None
+            return self.generic_visit(node)
+
+        def visit_Call(self, node):
+            self.generic_visit(node)
+            if isinstance(node.func, ast.Name) and node.func.id in cands:
+                node.func = copy.deepcopy(cands[node.func.id].value)
+            return node
+    fn = Tr().visit(fn)
+    for node in ast.walk(fn):
+        for field in ("body", "orelse", "finalbody"):
+            if isinstance(getattr(node, field, None), list) and not getattr(node, field) and field == "body":
+                node.body = [ast.Pass()]
+    return fn
+
+
+class WhileTrue(ast.NodeTransformer):
+    """`while True: if C: break; rest`  ==  `while not C: rest`  (no other break in `rest`)"""
+
+    def visit_While(self, node):
+        self.generic_visit(node)
+        if isinstance(node.test, ast.Constant) and node.test.value is True and not node.orelse and node.body:
+            b0 = node.body[0]
+            if isinstance(b0, ast.If) and not b0.orelse and len(b0.body) == 1 and isinstance(b0.body[0], ast.Break) \
+                    and not any(isinstance(x, ast.Break) for st in node.body[1:] for x in ast.walk(st)):
+                node.test = ast.UnaryOp(ast.Not(), b0.test)
+                node.body = node.body[1:] or [ast.Pass()]
+        return node
+
+
+def normalize_function(fn):
+    fn = copy.deepcopy(fn)
+    fn = expand_aliases(fn)
+    fn = WhileTrue().visit(fn)
+    return fn
 
 
 class MethodInfo:
@@ -366,6 +449,8 @@ class MethodTr:
                 if t2 != ty:
                     raise Unsupported("list literal with elements of different types")
             return "[" + ", ".join(p[0] for p in parts) + "]", ("list", "nat" if ty == "num" else ty)
+        if isinstance(e, ast.ListComp):
+            return self.list_comp(e, env)
         if isinstance(e, ast.IfExp):
             node = self.decide_tree(e.test, env,
                                     lambda e2: ("leaf", self.pure(e.body, e2)),
@@ -407,6 +492,42 @@ class MethodTr:
             return f"(some {x})", "none", ("opt", tx)
         x, y, t = self.unify(x, tx, y, ty_, "branches of a conditional expression")
         return x, y, t
+
+    def list_comp(self, e, env):
+        """`[elt for x in <list> if c]` over a list value (or `self._pq`): filter + map"""
+        if len(e.generators) != 1 or e.generators[0].is_async:
+            raise Unsupported("comprehension with several generators")
+        g = e.generators[0]
+        xs, t = self.iterable(g.iter, env)
+        if not (isinstance(t, tuple) and t[0] == "list" and t[1] is not None):
+            raise Unsupported(f"comprehension over a {t}")
+        x = self.fresh("x")
+        env2 = env.copy()
+        lets = ""
+        if isinstance(g.target, ast.Name):
+            if g.target.id != "_":
+                env2.vars[g.target.id] = Var(x, t[1], t[1], env.sep if has_ref(t[1]) else None,
+                                             env.wep if has_pv(t[1]) else None)
+        elif isinstance(g.target, ast.Tuple) and isinstance(t[1], tuple) and t[1][0] == "tuple" \
+                and len(g.target.elts) == len(t[1]) - 1 == 2 and all(isinstance(a, ast.Name) for a in g.target.elts):
+            for i, (a, et) in enumerate(zip(g.target.elts, t[1][1:])):
+                if a.id == "_":
+                    continue
+                nm = self.fresh(a.id)
+                lets += f"let {nm} := {x}.{i + 1}; "
+                env2.vars[a.id] = Var(nm, et, et, env.sep if has_ref(et) else None, env.wep if has_pv(et) else None)
+        else:
+            raise Unsupported("comprehension target")
+        src = self.atom(xs)
+        for c in g.ifs:
+            if self.effectful(c):
+                raise Unsupported("comprehension condition with side effects")
+            src = f"({src}.filter (fun {x} => {lets}decide ({self.cond(c, env2)})))"
+        if self.effectful(e.elt):
+            raise Unsupported("comprehension element with side effects")
+        y, ty = self.pure(e.elt, env2)
+        ty = "nat" if ty == "num" else ty
+        return f"({src}.map (fun {x} => {lets}{y}))", ("list", ty)
 
     def iterable(self, e, env):
         """an expression that is iterated: a list, or `self._pq` (PriorityQueue.__iter__: objects in array order)"""
@@ -1302,19 +1423,24 @@ class MethodTr:
         return self.loop_common(st, env, kk, "list", [self.atom(x)], t[1])
 
     def stmt_while(self, st, env, kk):
-        t = st.test
+        t, neg = st.test, False
+        while isinstance(t, ast.UnaryOp) and isinstance(t.op, ast.Not):
+            t, neg = t.operand, not neg
         if not (isinstance(t, ast.Compare) and len(t.ops) == 1 and isinstance(t.ops[0], (ast.Gt, ast.Lt, ast.GtE, ast.LtE))):
             raise Unsupported("while-loop whose test is not a comparison a < b (no fuel measure)")
         if self.effectful(t):
             raise Unsupported("while test with side effects")
+        op = type(t.ops[0])
+        if neg:
+            op = {ast.Gt: ast.LtE, ast.LtE: ast.Gt, ast.Lt: ast.GtE, ast.GtE: ast.Lt}[op]
         a, ta = self.pure(t.left, env)
         b, tb = self.pure(t.comparators[0], env)
-        if isinstance(t.ops[0], (ast.Lt, ast.LtE)):
+        if op in (ast.Lt, ast.LtE):
             a, ta, b, tb = b, tb, a, ta
         for ty in (ta, tb):
             if ty not in ("nat", "int", "num"):
                 raise Unsupported("while-loop over non-integers")
-        extra = " + 1" if isinstance(t.ops[0], (ast.GtE, ast.LtE)) else ""
+        extra = " + 1" if op in (ast.GtE, ast.LtE) else ""
         fuel = f"(({a} : Int) - ({b} : Int){extra}).toNat"
         return self.loop_common(st, env, kk, "while", [fuel], None)
 
@@ -1404,6 +1530,11 @@ class ClassTr:
                 m.bad = "signature with */** arguments or decorators"
                 continue
             m.bad = None
+            try:
+                fn = m.fn = normalize_function(fn)
+            except Unsupported as e:
+                m.bad = str(e)
+                continue
             body = body_no_doc(fn)
             try:
                 args = fn.args.args[1:]
